@@ -38,6 +38,7 @@ def dispatch (line : String) : String :=
   | "iface" :: rest => (handleIface rest).getD "BAD-CASE\t0"
   | "bpfr" :: rest => (handleBpfr rest).getD "BAD-CASE\t0"
   | "c03" :: rest => (handleC03 rest).getD "BAD-CASE\t0"
+  | "c03e" :: rest => (handleC03e rest).getD "BAD-CASE\t0"
   | "httpprobe" :: rest => (handleHttpProbe rest).getD "BAD-CASE\t0"
   | "pipe" :: rest => (handlePipe rest).getD "BAD-CASE\t0"
   | "pports" :: rest => (handlePPorts rest).getD "BAD-CASE\t0"
